@@ -1,7 +1,7 @@
 (* C05 - Committing a sub-editor rewrites exactly the selected region. *)
 From Coq Require Import List Bool ZArith Lia.
 Import ListNotations.
-From Rosed Require Import Base.Res Base.ListX Model.Options Model.Editor Proofs.C05P.
+From Rosed Require Import Base.Res Base.ListX Gem.Segment Model.Options Model.Editor Proofs.C05P Inst.GoRt gen.GemCommit Inst.GoCommit.
 Open Scope Z_scope.
 
 (* Whatever text t' a sub-editor selected at bytes [s, en) of p holds when it is
@@ -36,3 +36,11 @@ Theorem C05_string : forall e,
   ed_string e = match e_ref e with None => Ok (e_text e) | Some _ => do c <- commit_all e; Ok (e_text c) end.
 Proof. exact string_is_commit_all. Qed.
 Print Assumptions C05_string.
+
+(* Commit and String as they are in subeditor.go now - translated statement by statement on
+   every run (gen/GemCommit.v; CommitAll, a loop, is mapped onto the model's commit_all) - are the
+   model's commit and ed_string: the prefix and the suffix of the parent's text around the
+   recorded byte range, the sub-editor's text between them, the parent's options and reference *)
+Theorem C05_commit_is_the_source : forall e, go_Commit e = commit e /\ go_String e = ed_string e.
+Proof. intro e. exact (conj (go_commit_eq e) (go_string_eq e)). Qed.
+Print Assumptions C05_commit_is_the_source.
